@@ -44,6 +44,10 @@ def main(tier, replay=None):
     th = [] if q else ["thorough=1"]
     for s in SURFACES:
         vk_run(res, "c20", src, rd, "0,0,0,0", 0, 1500, "c20-" + s, opts=["surface=" + s] + th)
+    # custom error texts of a queue program (descriptor 6, exit 82) around the 256-byte buffer of qmail.c, through all three daemons
+    before0 = len(res.fails)
+    vk_run(res, "c07", src, rd, "0,0,0,0", 0, 1500, "asan-c07-status", opts=["family=status"])
+    crash_only(res, before0)
     if not q:
         before = len(res.fails)
         reruns = [("c07", "c07-cut", ["family=cut"]), ("c07", "c07-limits", ["family=limits"]), ("c07", "c07-peer", ["family=peer"]), ("c07", "c07-multi", ["family=multi"]),
